@@ -1523,6 +1523,15 @@ typedef struct spifmem_memrec_t {
  */
 #define FILE_PREPROC               (0x02)
 /**
+ * File-state flag:  the path string was allocated by the parser.
+ *
+ * Set for files opened through a %include directive, whose name is
+ * extracted from the line (the name of the top-level file belongs to
+ * the caller of spifconf_parse()).  The parser frees such a path when
+ * it is done with the file.
+ */
+#define FILE_PATH_ALLOCATED        (0x04)
+/**
  * Push info for a new file onto the state stack.
  *
  * This macro adds a new file state structure to the top of the stack
